@@ -23,6 +23,10 @@ func init() {
 				r.Rule("R10f", "INDEX-AT-NODE: every position written to the map forest's leaf index is the position expression of a node-store Put in the same function")
 				checkIndexAtNode(p, r, "R10f")
 			}},
+			{ID: "R10k", Statement: "the reviewed existence test compares strictly with the leaf count", Run: func(p *Program, r *Report) {
+				r.Rule("R10k", "EXISTENCE-TEST-IS-STRICT: every comparison of a row-0 position with the leaf count inside the reviewed existence test is strict (position < leaf count means exists)")
+				checkExistenceTestStrict(p, r, "R10k")
+			}},
 			{ID: "R10j", Statement: "look-ups translate in the right direction", Run: func(p *Program, r *Report) {
 				r.Rule("R10j", "LOOKUP-LAYOUT: in the map forest's look-ups a position taken from the leaf index (TotalRows layout) is translated from that layout, a position given by the caller (tree layout) from the tree layout, and what is returned is in the tree layout")
 				or := runOrderEngine(p, r, "R10j", []string{"(*MapPollard).GetLeafPosition", "(*MapPollard).GetLeafHashPositions", "(*MapPollard).GetHash"})
